@@ -240,7 +240,7 @@ impl Monitor for C14 {
         "cwv-direct (cw4-group) + cwv-app (cw4-stake with sink hooks, every 4th history)"
     }
     fn histories(&self, tier: Tier) -> u64 {
-        tier.pick(400, 192_000)
+        tier.pick(2_000, 192_000)
     }
     fn mandatory(&self) -> Vec<&'static str> {
         vec![
